@@ -55,6 +55,7 @@ class Built:
         self.nodes = []  # (spec, object)
         self.dataset_ids = {}  # id(obj) -> dataset id (incl. derivatives, overload datasets)
         self.presets = []  # (live pre-set dict, snapshot)
+        self.derived_specs = {}  # id(derived Dataset) -> (P, D)
         self.root = self.expr(program["root"])
 
     # -- probes -----------------------------------------------------------
@@ -250,6 +251,7 @@ class Built:
                 obj = obj.with_default_options(copy.deepcopy(D))
             self.derived[key] = obj
             self.dataset_ids[id(obj)] = did
+            self.derived_specs[id(obj)] = (copy.deepcopy(P), copy.deepcopy(D))
         return self.derived[key]
 
     def dataset(self, did):
